@@ -1,3 +1,4 @@
 (* Proofs about the scheduler model: re-exports the proof files. *)
 From VF Require Export Sched.Spec.
-From VF Require Export Sched.ProofsAssoc Sched.ProofsBasic Sched.ProofsFrame Sched.ProofsFoot.
+From VF Require Export Sched.ProofsAssoc Sched.ProofsBasic Sched.ProofsFrame Sched.ProofsFoot
+  Sched.ProofsStreams Sched.ProofsFaithful.
